@@ -44,6 +44,7 @@ pub fn run(obligation: &str) -> i32 {
     if obligation.starts_with("C03.") { c03_apply_tagenv(&mut rep); return rep.finish("C03_apply_tagenv"); }
     if obligation.starts_with("C02.needs_unnesting") { c02_needs_unnesting(&mut rep); return rep.finish("C02_unnesting"); }
     if obligation.starts_with("C02.") || obligation.starts_with("C05.") { c02_c05_assembly(&mut rep); return rep.finish("C02_C05_assembly"); }
+    if ["C04.constraint_link", "C04.set_link", "C04.element_link"].iter().any(|p| obligation.starts_with(p)) { c04_link(&mut rep); return rep.finish("C04_link"); }
     if ["C04.constraint_has_reference", "C04.set_has_reference", "C04.element_has_reference", "C04.type_has_reference", "C04.is_elsewhere_declared", "C04.optionality_default"].iter().any(|p| obligation.starts_with(p)) { c04_references(&mut rep); return rep.finish("C04_references"); }
     if obligation.starts_with("C04.") { c04_bounds(&mut rep); return rep.finish("C04_bounds"); }
     if obligation.starts_with("C07.named_lookup") || obligation.starts_with("C07.has_enum_value") || obligation.starts_with("C07.lemma") { c07_lookup(&mut rep); return rep.finish("C07_lookup"); }
@@ -454,6 +455,16 @@ fn c04_bounds(rep: &mut Rep) {
                     _ => rep.check("C04.range_from_element.range_ends_are_the_bounds", matches!(&r, Ok((mn, mx, _, false)) if *mn == lo(e) && *mx == hi(e)), d),
                 }
                 rep.check("C04.range_from_element.extensible_iff_the_element_is", matches!(&r, Ok((_, _, x, _)) if *x == ext(e)), d);
+                // the same element as the constraint of an included type: `(INTEGER (e))` and `(INTEGER (e), ...)`
+                let probes_inc: Vec<i128> = (-2..=12).collect();
+                for marker in [false, true] {
+                    let included = ASN1Type::Integer(Integer { constraints: vec![Constraint::Subtype(ElementSetSpecs { set: ElementOrSetOperation::Element(e.clone()), extensible: false })], distinguished_values: None });
+                    let inc = SubtypeElements::ContainedSubtype { subtype: included, extensible: marker };
+                    let r = hook_range_from_element(Some(&inc));
+                    let d = || format!("(INTEGER ({te}){}) -> {r:?}", if marker { ", ..." } else { "" });
+                    rep.check("C04.range_from_element.marker_after_an_included_type_makes_it_extensible", matches!(&r, Ok((_, _, x, _)) if !marker || *x), d);
+                    rep.check("C04.range_from_element.included_type_contributes_the_range_of_its_own_constraints", matches!(&r, Ok((mn, mx, _, _)) if probes_inc.iter().all(|v| !permits(e, *v) || (mn.map_or(true, |m| m <= *v) && mx.map_or(true, |m| *v <= m)))), d);
+                }
                 let sz = SubtypeElements::SizeConstraint(Box::new(ElementOrSetOperation::Element(e.clone())));
                 rep.check("C04.range_from_element.size_of_an_element_is_a_size_bound", matches!(hook_range_from_element(Some(&sz)), Ok((mn, mx, x, true)) if mn == lo(e) && mx == hi(e) && x == ext(e)), || format!("SIZE({te})"));
                 for outer in [false, true] {
@@ -973,4 +984,67 @@ fn c06_const(rep: &mut Rep) {
         rep.check("C06.lemma.const_type_contains_no_arbitrary_precision_integer", !c06c_const(&t) || !c06c_unbounded_inside(&t), || format!("{t:?}"));
     }
     rep.check("C06.type_is_const.safety", true, || String::new());
+}
+
+// ---------------------------------------------------------------------------------------------- C04 (unit C04_link)
+// The generated constraint trees of the references unit, linked against a module that defines the referenced value / enumeral:
+// the expected tree is built by an independent function (every reference leaf replaced by its value, nothing else touched).
+fn c04l_resolve(v: &ASN1Value) -> ASN1Value {
+    match v {
+        ASN1Value::ElsewhereDeclaredValue { identifier, .. } if identifier == "maxN" => ASN1Value::Integer(200),
+        ASN1Value::EnumeratedValue { enumerable, .. } if enumerable == "red" => ASN1Value::Integer(1),
+        other => other.clone(),
+    }
+}
+fn c04l_elem(e: &SubtypeElements) -> SubtypeElements {
+    match e {
+        SubtypeElements::SingleValue { value, extensible } => SubtypeElements::SingleValue { value: c04l_resolve(value), extensible: *extensible },
+        SubtypeElements::ValueRange { min, max, extensible } => SubtypeElements::ValueRange { min: min.as_ref().map(c04l_resolve), max: max.as_ref().map(c04l_resolve), extensible: *extensible },
+        SubtypeElements::SizeConstraint(s) => SubtypeElements::SizeConstraint(Box::new(c04l_eos(s))),
+        SubtypeElements::PermittedAlphabet(s) => SubtypeElements::PermittedAlphabet(Box::new(c04l_eos(s))),
+        SubtypeElements::SingleTypeConstraint(cs) => SubtypeElements::SingleTypeConstraint(cs.iter().map(c04l_constraint).collect()),
+        other => other.clone(),
+    }
+}
+fn c04l_eos(s: &ElementOrSetOperation) -> ElementOrSetOperation {
+    match s {
+        ElementOrSetOperation::Element(e) => ElementOrSetOperation::Element(c04l_elem(e)),
+        ElementOrSetOperation::SetOperation(o) => ElementOrSetOperation::SetOperation(SetOperation { base: c04l_elem(&o.base), operator: o.operator.clone(), operant: Box::new(c04l_eos(&o.operant)) }),
+    }
+}
+fn c04l_constraint(c: &Constraint) -> Constraint {
+    match c { Constraint::Subtype(t) => Constraint::Subtype(ElementSetSpecs { set: c04l_eos(&t.set), extensible: t.extensible }), other => other.clone() }
+}
+fn c04l_plain(e: &SubtypeElements) -> bool {
+    // the generated tree stays inside what this replay can predict: no type inclusion / inner type constraint of several components
+    match e {
+        SubtypeElements::ContainedSubtype { .. } | SubtypeElements::MultipleTypeConstraints(_) | SubtypeElements::TypeConstraint(_) => false,
+        SubtypeElements::SizeConstraint(s) | SubtypeElements::PermittedAlphabet(s) => c04l_plain_eos(s),
+        SubtypeElements::SingleTypeConstraint(cs) => cs.iter().all(|c| matches!(c, Constraint::Subtype(t) if c04l_plain_eos(&t.set))),
+        _ => true,
+    }
+}
+fn c04l_plain_eos(s: &ElementOrSetOperation) -> bool {
+    match s { ElementOrSetOperation::Element(e) => c04l_plain(e), ElementOrSetOperation::SetOperation(o) => c04l_plain(&o.base) && c04l_plain_eos(&o.operant) }
+}
+fn c04_link(rep: &mut Rep) {
+    use rasn_compiler::verif_hooks::hook_link_constraints;
+    let mut tlds: BTreeMap<String, ToplevelDefinition> = BTreeMap::new();
+    tlds.insert("maxN".into(), ToplevelDefinition::Value(ToplevelValueDefinition { comments: String::new(), name: "maxN".into(), associated_type: ASN1Type::Integer(Integer { constraints: vec![], distinguished_values: None }), parameterization: None, value: ASN1Value::Integer(200), module_header: None }));
+    tlds.insert("Color".into(), ToplevelDefinition::Type(ToplevelTypeDefinition { comments: String::new(), tag: None, name: "Color".into(), parameterization: None, module_header: None,
+        ty: ASN1Type::Enumerated(Enumerated { members: vec![Enumeral { name: "blue".into(), description: None, index: 0 }, Enumeral { name: "red".into(), description: None, index: 1 }], extensible: None, constraints: vec![] }) }));
+    let mut r = Lcg(0xC04B);
+    let mut done = 0;
+    while done < 20000 {
+        let c = c04r_constraint(&mut r, 1 + done % 3);
+        if !matches!(&c, Constraint::Subtype(t) if c04l_plain_eos(&t.set)) { continue; }
+        done += 1;
+        let want = c04l_constraint(&c);
+        let got = hook_link_constraints(vec![c.clone()], &tlds);
+        let ok = matches!(&got, Ok(v) if v.len() == 1 && v[0] == want);
+        let d = || format!("constraint {c:?} linked to {got:?}, expected {want:?}");
+        for name in ["C04.constraint_link.every_bound_is_handed_to_the_resolver_and_nothing_else_changes", "C04.set_link.both_operands_at_every_depth_and_the_operator_kept",
+                     "C04.element_link.single_value_and_both_range_ends_resolved_markers_kept", "C04.element_link.single_type_constraints_linked_so_far"] { rep.check(name, ok, d); }
+    }
+    for n in ["C04.constraint_link.safety", "C04.set_link.safety", "C04.element_link.safety"] { rep.check(n, true, || String::new()); }
 }
